@@ -17,7 +17,7 @@ func init() {
 	register("C19", "other", []string{
 		"decides: every index / slice / non-comma-ok type assertion / explicit panic reachable from Parse, Dispatch (up to the user call), Help and completion is discharged by one of the guard rules G0-G9; every loop and recursion is classified as terminating; a failed Parse returns (nil, err)",
 		"not decided: general nil-dereference freedom (fields are non-nil by construction; nilaway is only a cross-reference), stack / memory exhaustion, user callbacks; regular expressions are RE2 (linear time, trusted)",
-	}, rC19Panics, rC19Termination, rC19ParseReturns, rC19NilMaps, rC19NewSites, rC19IterAfterNext)
+	}, rC19Panics, rC19Termination, rC19ParseReturns, rC19NilMaps, rC19NewSites, rC19IterAfterNext, rC19NoBlocking, rC19Repeat)
 }
 
 func c19Roots(w *World) []*ssa.Function {
@@ -940,4 +940,126 @@ func indexSepLen(v ssa.Value) int64 {
 		return int64(len(sep))
 	}
 	return 0
+}
+
+// G10: strings.Repeat(s, n) panics for n < 0.
+func (w *World) nonNegValue(v ssa.Value, depth int, seen map[ssa.Value]bool) bool {
+	if depth > 8 || v == nil {
+		return false
+	}
+	if seen[v] {
+		return true
+	}
+	seen[v] = true
+	switch x := v.(type) {
+	case *ssa.Const:
+		k, ok := constInt(x)
+		return ok && k >= 0
+	case *ssa.Call:
+		n := calleeName(x)
+		if n == "builtin:len" || n == "builtin:cap" || n == "unicode/utf8.RuneCountInString" {
+			return true
+		}
+		if callee := x.Call.StaticCallee(); callee != nil && callee.Blocks != nil && w.PkgOfFn(callee) != nil {
+			ok := true
+			eachInstr(callee, func(in ssa.Instruction) {
+				if ret, isRet := in.(*ssa.Return); isRet && len(ret.Results) == 1 && !w.nonNegValue(ret.Results[0], depth+1, seen) {
+					ok = false
+				}
+			})
+			return ok
+		}
+	case *ssa.BinOp:
+		switch x.Op {
+		case token.ADD, token.MUL:
+			return w.nonNegValue(x.X, depth+1, seen) && w.nonNegValue(x.Y, depth+1, seen)
+		}
+	case *ssa.Phi:
+		for _, e := range x.Edges {
+			if !w.nonNegValue(e, depth+1, seen) {
+				return false
+			}
+		}
+		return true
+	case *ssa.UnOp:
+		if x.Op != token.MUL {
+			return false
+		}
+		switch a := x.X.(type) {
+		case *ssa.Global:
+			return shortName(a.String()) == "help.Indentation" // documented as a number of spaces
+		case *ssa.Alloc:
+			for _, sv := range storesInto(a) {
+				if !w.nonNegValue(sv, depth+1, seen) {
+					return false
+				}
+			}
+			return true
+		case *ssa.FreeVar:
+			// captured local: all stores in the enclosing function and its literals
+			fn := a.Parent()
+			idx := -1
+			for i, f := range fn.FreeVars {
+				if f == a {
+					idx = i
+				}
+			}
+			ok := idx >= 0 && fn.Parent() != nil
+			if ok {
+				found := false
+				eachInstr(fn.Parent(), func(in ssa.Instruction) {
+					if mc, isMC := in.(*ssa.MakeClosure); isMC && mc.Fn == ssa.Value(fn) && idx < len(mc.Bindings) {
+						if al, isAl := mc.Bindings[idx].(*ssa.Alloc); isAl {
+							found = true
+							for _, sv := range storesInto(al) {
+								if !w.nonNegValue(sv, depth+1, seen) {
+									ok = false
+								}
+							}
+						}
+					}
+				})
+				return ok && found
+			}
+		}
+	case *ssa.Parameter:
+		fn := x.Parent()
+		idx := paramIndex(fn, x)
+		n := 0
+		ok := true
+		for _, caller := range w.Funcs {
+			for _, c := range allCalls(caller) {
+				if c.Common().StaticCallee() == fn && idx < len(c.Common().Args) {
+					n++
+					if !w.nonNegValue(c.Common().Args[idx], depth+1, seen) {
+						ok = false
+					}
+				}
+			}
+		}
+		return ok && n > 0
+	}
+	return false
+}
+
+// R19.8
+func rC19Repeat(w *World, r *Report) {
+	ru := r.Rule("R19.8", "G10: every strings.Repeat count reachable from the entry points is provably non-negative (constants, lengths, sums and products of those, the Indentation setting); a difference of lengths is not", 4)
+	roots := c19Roots(w)
+	for _, rt := range roots {
+		if rt == nil {
+			ru.Undecided("anchor", "-", "an entry point was not found")
+			return
+		}
+	}
+	reach := w.reachableFrom(roots, cutUserCode)
+	for _, fn := range w.Funcs {
+		if !reach[fn] {
+			continue
+		}
+		for _, c := range callsTo(fn, "strings.Repeat") {
+			ok := w.nonNegValue(c.Common().Args[1], 0, map[ssa.Value]bool{})
+			ru.Check(ok, "Repeat-count/"+short(fn), w.IPos(c), "count is a sum / product of lengths and non-negative constants", "the count handed to strings.Repeat can be negative (e.g. a width minus a length measured in another unit): Repeat panics")
+		}
+	}
 }
